@@ -149,8 +149,7 @@ Definition show (b : parts) : string :=
   ++ match p_comments b with Some c => if nonempty c then " " ++ c else "" | None => "" end.
 
 (* ---- ssh_socket.py get_banner: lines of one received chunk, header/banner separation ----
-   Every recv() result is consumed completely by the inner loop, so chunks are cut into lines
-   independently of each other (an unterminated tail of a chunk is a line).  Bytes are 7-bit here
+   Bytes are 7-bit here
    (UTF-8 decoding is the identity); Banner.parse above covers all code points. *)
 Definition is_bws (z : Z) : bool := ((z =? 32) || ((9 <=? z) && (z <=? 13)))%Z.      (* bytes.rstrip() *)
 Definition is_uws (z : Z) : bool :=                                                  (* str.strip() *)
@@ -179,8 +178,29 @@ Fixpoint banner_loop (ls : list (list Z)) : option (parts * bool) * list (list Z
            | None => let (b, h) := banner_loop r in (b, l :: h)
            end
   end.
-Definition get_banner (chunks : list (list Z)) : option (parts * bool) * list (list Z) :=
-  banner_loop (flat_map lines_of_chunk chunks).
+(* complete lines (terminated by LF) of the unread data, and the unterminated rest *)
+Fixpoint split_complete (s : list Z) : list (list Z) * list Z :=
+  match s with
+  | [] => ([], [])
+  | c :: r =>
+      let (ls, p) := split_complete r in
+      if (c =? 10)%Z then ([c] :: ls, p)
+      else match ls with [] => ([], c :: p) | l :: ls' => ((c :: l) :: ls', p) end
+  end.
+(* get_banner after commit ddbb5b8: after every recv() only complete lines are consumed, the
+   unterminated rest waits for the next segment; when the stream ends (close / timeout) what is
+   left is read as lines.  Returns at the first line that parses.  Chunks are non-empty. *)
+Fixpoint gb_loop (pend : list Z) (chunks : list (list Z)) : option (parts * bool) * list (list Z) :=
+  match chunks with
+  | [] => banner_loop (lines_of_chunk pend)
+  | c :: r =>
+      let (ls, p) := split_complete (pend ++ c) in
+      match banner_loop (map rstrip ls) with
+      | (Some b, h) => (Some b, h)
+      | (None, h) => let (b, h2) := gb_loop p r in (b, h ++ h2)
+      end
+  end.
+Definition get_banner (chunks : list (list Z)) : option (parts * bool) * list (list Z) := gb_loop [] chunks.
 
 (* a stream of lines, each terminated by CR LF (true) or LF (false) *)
 Definition eol (crlf : bool) : list Z := if crlf then [13; 10]%Z else [10]%Z.
